@@ -40,6 +40,7 @@ type FuncSpec struct {
 	Guards    []*GuardClause // control-flow contracts decided on the CFG (frames back end)
 	Orders    []*OrderClause // "order A before B": no A is reachable once a B has been executed
 	Reads     []*ReadsClause // "reads_fields T except a,b": the function reads every other field of struct T
+	FeedsOnly []*FeedsClause // "feeds_unchanged T into f, g": every field of T read here flows, unchanged, only into calls of f / g
 	ControlOnly []string     // "control_only T.f, T.g": those fields only ever decide branches, here and in everything reachable in the package
 	Trusted   bool
 	MayPanic  bool
@@ -135,6 +136,17 @@ type ReadsClause struct {
 	Line   int
 }
 
+// FeedsClause: "feeds_unchanged <Type> into <call names>": each value loaded
+// from a field of <Type> in this function is used only as (an interface-boxed,
+// converted or variadic) argument of the listed calls - it is not copied,
+// sorted, truncated or otherwise transformed on the way.
+type FeedsClause struct {
+	Type  string
+	Into  []string
+	File  string
+	Line  int
+}
+
 type SpecFile struct {
 	Alt    map[string][]*FuncSpec // further contracts for the same function name (each restricted by flag only_for)
 	Lemmas map[string]*Lemma
@@ -149,7 +161,7 @@ func NewSpecFile() *SpecFile {
 }
 
 var clauseKeywords = map[string]bool{"requires": true, "ensures": true, "invariant": true, "decreases": true,
-	"assigns": true, "preserves": true, "guard": true, "order": true, "reads_fields": true, "control_only": true, "loop": true, "may_panic": true, "trusted": true, "pure": true, "abstract": true, "axiom": true,
+	"assigns": true, "preserves": true, "guard": true, "order": true, "reads_fields": true, "control_only": true, "feeds_unchanged": true, "loop": true, "may_panic": true, "trusted": true, "pure": true, "abstract": true, "axiom": true,
 	"func": true, "lemma": true, "noinline": true, "opaque": true, "flag": true, "let": true, "may_panic_at": true, "extends": true, "foreach_field": true, "ghost": true, "assert": true}
 
 // ParseSpecFile reads //@ lines from path and adds them to sf.
@@ -361,6 +373,19 @@ func (sf *SpecFile) ParseSpecFile(path string) error {
 					cur.Assigns = append(cur.Assigns, cs...)
 					cur.HasAssign = true
 				}
+			case "feeds_unchanged":
+				tn, into, ok := strings.Cut(strings.TrimSpace(r.text), " into ")
+				if !ok {
+					return fmt.Errorf("%s: expected 'feeds_unchanged <Type> into <call>, <call>'", loc)
+				}
+				fc := &FeedsClause{Type: strings.TrimSpace(tn), File: path, Line: r.line}
+				for _, c := range strings.Split(into, ",") {
+					if t := strings.TrimSpace(c); t != "" {
+						fc.Into = append(fc.Into, t)
+					}
+				}
+				curLoop = nil
+				cur.FeedsOnly = append(cur.FeedsOnly, fc)
 			case "control_only":
 				for _, part := range strings.Split(r.text, ",") {
 					if t := strings.TrimSpace(part); t != "" {
